@@ -71,6 +71,19 @@ Theorem C07_stages_never_nil : forall st c p guard ce ct o, sound (pipeline st c
 Proof. exact stages_never_nil. Qed.
 Print Assumptions C07_stages_never_nil.
 
+(* ... also once reading has begun (the decoder's end-of-message wrapper then puts a tracking reader
+   under the decoder): still no nil reader, and nothing but tracking readers was added *)
+Theorem C07_stages_never_nil_reading : forall st c p guard ce ct o,
+  sound (after_first_read (pipeline st c p guard ce ct o)) = true.
+Proof. exact stages_never_nil_reading. Qed.
+Print Assumptions C07_stages_never_nil_reading.
+
+Theorem C07_first_read_only_adds_tracked : forall b,
+  filter not_tracked (fst (flatten (after_first_read b))) = filter not_tracked (fst (flatten b)) /\
+  snd (flatten (after_first_read b)) = snd (flatten b).
+Proof. exact first_read_only_adds_tracked. Qed.
+Print Assumptions C07_first_read_only_adds_tracked.
+
 Theorem C07_stages_only_add : forall st c p guard ce ct o,
   core (pipeline st c p guard ce ct o) = core (transport_body st c ce).
 Proof. exact stages_only_add. Qed.
